@@ -11,7 +11,7 @@ from ..core import Batch, cN, cZ, cbool, clist, cnat, copt, cpair
 ID = "C08"
 LEVEL = "proof"
 PROP_FILE = "Properties/C08.v"
-PROOF_FILES = ["Proofs/BinarizeProofs.v", "Model/Binarize.v", "Model/Poly.v", "Proofs/PolyProofs.v", "Proofs/SpfsFinal.v", "Proofs/UspfsFinal.v"]
+PROOF_FILES = ["Proofs/BinarizeProofs.v", "Model/Binarize.v", "Model/Poly.v", "Proofs/PolyProofs.v", "Proofs/PolyInvProofs.v", "Proofs/Meta2Proofs.v", "Proofs/SpfsFinal.v", "Proofs/UspfsFinal.v"]
 TRUSTED = [
     "model Model/Binarize.v of utils/trees.py (is_binary, graft, arrange_leaves, binarize) and "
     "ReconciliationInput.binarize: already-resolved child subtrees are atoms; the literal variant with an explicit `ignore` "
@@ -34,12 +34,7 @@ RULE = (
     "end-to-end: object and species trees of at most 4 leaves with at least one polytomy overall, syntenies over <= 3 families, "
     "several cost vectors, both extended solvers under policy ALL; non-trivial = more than one refinement pair and a positive optimum"
 )
-OPEN_GOALS = [
-    "child_order_invariance_statement (Proofs/PolyProofs.v): the binary optimum of the extended solvers does not change when a refinement "
-    "is replaced by the same tree with children in another order; with it, `minimum over the enumerated pairs` (proved: "
-    "C08_ext_optimum_refinements_*) becomes `minimum over every binary refinement whatever its child order` "
-    "(the enumeration is proved complete and duplicate-free up to child order: C08_refinement_pairs_complete / _nodup)",
-]
+OPEN_GOALS: list = []
 
 HEADER = "From SR Require Import Model.Binarize.\n"
 
@@ -920,7 +915,7 @@ LEVEL_TEXT = ("Machine-checked theorems on the model of graft/arrange_leaves/bin
               "End to end (Model/Poly.v = the outer loop of _spfs/_uspfs feeding ONE entry with the candidates of every refinement pair): inside the coherent region "
               "the extended ordered and unordered solvers on inputs of any arity return, under ALL, exactly the solutions of minimum cost over all enumerated refinement pairs and all their solutions "
               "(duplicate-free, each referring to its pair), under ANY one of them, the value is the minimum of the binary optimum over the pairs; every returned solution refers to binary refinements "
-              "of both trees with the original leaf data; the pairs are all pairs of refinements, each once, up to child order. "
+              "of both trees with the original leaf data; the pairs are all pairs of refinements, each once, up to child order, and the binary optimum does not depend on the child order (species names distinct), so the returned value is the minimum over EVERY pair of binary refinements. "
               "The models are compared with utils/trees.binarize list against list on every rose-tree shape up to 5 (quick) / 6 (thorough) leaves and random 6-9 leaf trees, with "
               "ReconciliationInput.binarize()+label_internal() on labelled, coloured inputs with leaf data, and spfs_poly/uspfs_poly with the extended solvers on polytomous inputs "
               "(value, refinement-pair index of every returned solution, ANY).")
